@@ -263,7 +263,7 @@ def c10_d(ctx):
         ok = bool(calls)
         for c in calls:
             gs = ctx.guards(m, c)
-            nc = any(pol and match(t, pattern('not self._rbf_is_cached')) is not None
+            nc = any((not pol) and match(t, pattern('self._rbf_is_cached')) is not None
                      for (t, pol, _) in gs)
             fast = [t for (t, pol, _) in gs if pol and contains(t, 'self.is_sampling')]
             ok = ok and nc and bool(fast)
